@@ -74,6 +74,9 @@ func init() {
 				{Scenario: "c04_ackseq", Params: mustJSON(AckSeqParams{Resume: 0, Len: l}), Bound: 0, Shards: 4},
 				{Scenario: "c04_ackseq", Params: mustJSON(AckSeqParams{Resume: 2, Len: l}), Bound: 0, Shards: 4},
 				{Scenario: "c04_ackseq", Params: mustJSON(AckSeqParams{Resume: 0, Len: l, SysEvent: true}), Bound: 0, Shards: 8, Note: "alphabet extended by a non-document event (seqno-advanced) that settles itself"},
+				{Scenario: "pipe", Params: mustJSON(PipeParams{Mode: "gen", Alphabet: []string{"M", "Mres", "Mtxn", "SEQ", "CC"}, Depth: 4, Ops: []string{"deliver0", "deliver1", "ackold", "commit"}}), Bound: 0, Shards: 4, Note: "positions moved by library-internal documents, system and seqno-advanced events: tracked = reported to the offset tracker = written by the next save"},
+				{Scenario: "pipe", Params: mustJSON(PipeParams{Mode: "script", Layout: "single", Depth: 6, Ops: []string{"deliver0", "deliver1", "ackold", "commit", "restart"}, Backend: "file"}), Bound: 0, Shards: 4, Note: "file backend with restarts: the next save writes the tracked position and never moves a vBucket it did not touch below what it resumed from"},
+				{Scenario: "c09_singleton", Params: mustJSON(struct{}{}), Bound: 0, Note: "a member whose assigned range is a single vBucket (incl. 0..0): acknowledgements move its position and the next save writes it"},
 				{Scenario: "c04_range", Params: mustJSON(RangeParams{Commit: true}), Bound: 0},
 				{Scenario: "c04_range", Params: mustJSON(RangeParams{Commit: false}), Bound: 0},
 				{Scenario: "c04_range", Params: mustJSON(RangeParams{Commit: true, Still: true}), Bound: 0},
